@@ -407,7 +407,7 @@ theorem untar_fs_confined (hd : DecFacts) (o : Opts) (root : List Name) (fs : FS
       exact h.not_link
   intro p hp
   rcases hframe p hp with e | ⟨hpe, a, m, m', e1, e2⟩
-  · exact ⟨fun _ => e, fun _ => ⟨none, none, none, .inr e⟩⟩
+  · exact ⟨fun _ => e, fun _ => ⟨{}, none, none, .inr e⟩⟩
   · exact ⟨fun hne => absurd hpe hne, fun _ => ⟨a, m, m', .inl ⟨e1, e2⟩⟩⟩
 
 /-! ### the statement is not vacuous -/
@@ -421,13 +421,17 @@ def nSub : Bytes := [115, 117, 98]                            -- "sub"
 def nOutside : Bytes := [111, 117, 116, 115, 105, 100, 101]   -- "outside"
 def tOutside : Bytes := [47, 111, 117, 116, 115, 105, 100, 101]               -- "/outside"
 
+/-- attributes of /outside and of /srv before unpacking -/
+def aOutside : Attr := { owner := some (1, 1), mode := some 0o700, xattrs := [] }
+def aSrv : Attr := { owner := some (3, 3), mode := some 0o2775, xattrs := [([117, 115, 101, 114, 46, 120], [1])] }
+
 /-- the destination /srv/dest exists and holds a hostile link /srv/dest/link -> /outside -/
 def fsA : FS :=
-  [([nOutside], .dir (some 1) (some 2)), ([nSrv], .dir (some 3) (some 4)), ([nSrv, nDest], .dir none none),
-   ([nSrv, nDest, nLink], .symlink tOutside none)]
+  [([nOutside], .dir aOutside (some 2)), ([nSrv], .dir aSrv (some 4)), ([nSrv, nDest], .dir {} none),
+   ([nSrv, nDest, nLink], .symlink tOutside {})]
 
 /-- the destination /srv/dest does not exist yet -/
-def fsB : FS := [([nOutside], .dir (some 1) (some 2)), ([nSrv], .dir (some 3) (some 4))]
+def fsB : FS := [([nOutside], .dir aOutside (some 2)), ([nSrv], .dir aSrv (some 4))]
 
 def root : List Name := [nSrv, nDest]
 
@@ -447,7 +451,7 @@ def archive : Bytes :=
 
 def opts : Opts := ⟨false, false⟩
 
-theorem rootOK_of (fs : FS) (h1 : fs.get [nSrv] = some (.dir (some 3) (some 4)))
+theorem rootOK_of (fs : FS) (h1 : fs.get [nSrv] = some (.dir aSrv (some 4)))
     (h2 : ∀ t a, fs.get root ≠ some (.symlink t a)) : RootOK fs root where
   ne := by decide
   comps_valid := by decide
@@ -461,7 +465,7 @@ theorem rootOK_of (fs : FS) (h1 : fs.get [nSrv] = some (.dir (some 3) (some 4)))
 theorem rootOK_A : RootOK fsA root := by
   refine rootOK_of fsA (by decide) ?_
   intro t a h
-  have : fsA.get root = some (.dir none none) := by decide
+  have : fsA.get root = some (.dir {} none) := by decide
   rw [this] at h
   cases h
 
@@ -472,25 +476,31 @@ theorem rootOK_B : RootOK fsB root := by
   rw [this] at h
   cases h
 
+/-- what `setPerms` leaves with these options: owner 0:0, the archived permission bits, no xattrs -/
+def aDir : Attr := { owner := some (0, 0), mode := some 0o755, xattrs := [] }
+def aFile : Attr := { owner := some (0, 0), mode := some 0o644, xattrs := [] }
+def aLink : Attr := { owner := some (0, 0), mode := none, xattrs := [] }
+
 /-- onto `fsA`: `UnTar` returns nil, the hostile link has been replaced by the file, the link of the archive exists, and
     /outside and /srv are what they were -/
 example :
     (untarFS opts root fsA archive).2 = true ∧
-    (untarFS opts root fsA archive).1.get [nSrv, nDest, nLink] = some (.file [97, 98, 99] (some 33188) (some 5)) ∧
-    (untarFS opts root fsA archive).1.get [nSrv, nDest, nSub] = some (.dir (some 16877) (some 7)) ∧
-    (untarFS opts root fsA archive).1.get [nSrv, nDest, nSub, [120]] = some (.symlink tOutside (some 41471)) ∧
+    (untarFS opts root fsA archive).1.get [nSrv, nDest, nLink] = some (.file [97, 98, 99] aFile (some 5)) ∧
+    (untarFS opts root fsA archive).1.get [nSrv, nDest, nSub] = some (.dir aDir (some 7)) ∧
+    (untarFS opts root fsA archive).1.get [nSrv, nDest, nSub, [120]] = some (.symlink tOutside aLink) ∧
     (untarFS opts root fsA archive).1.get [nOutside] = fsA.get [nOutside] ∧
     (untarFS opts root fsA archive).1.get [nSrv] = fsA.get [nSrv] := by
   decide +kernel
 
-/-- onto `fsB`: the destination is created, and its parent /srv gets a new mtime — the exception in the theorem is needed -/
+/-- onto `fsB`: the destination is created, and its parent /srv gets a new mtime (and keeps its owner, mode and
+    xattrs) — the exception in the theorem is needed -/
 example :
     (untarFS opts root fsB archive).2 = true ∧
-    (untarFS opts root fsB archive).1.get [nSrv, nDest] = some (.dir (some 16877) none) ∧
-    (untarFS opts root fsB archive).1.get [nSrv, nDest, nLink] = some (.file [97, 98, 99] (some 33188) (some 5)) ∧
+    (untarFS opts root fsB archive).1.get [nSrv, nDest] = some (.dir aDir none) ∧
+    (untarFS opts root fsB archive).1.get [nSrv, nDest, nLink] = some (.file [97, 98, 99] aFile (some 5)) ∧
     (untarFS opts root fsB archive).1.get [nOutside] = fsB.get [nOutside] ∧
-    fsB.get [nSrv] = some (.dir (some 3) (some 4)) ∧
-    (untarFS opts root fsB archive).1.get [nSrv] = some (.dir (some 3) none) := by
+    fsB.get [nSrv] = some (.dir aSrv (some 4)) ∧
+    (untarFS opts root fsB archive).1.get [nSrv] = some (.dir aSrv none) := by
   decide +kernel
 
 /-- the theorem applied: /outside is untouched whatever the archive -/
